@@ -4,7 +4,7 @@ import io
 from .. import metas, smf
 from ..common import chunks, exc_name, generic_replay, pool_map
 
-RULE = ('charsets latin1, utf-8, cp1252, shift_jis, utf-16, utf-32, ascii, koi8-r x texts from each codec\'s repertoire (and '
+RULE = ('charsets latin1, utf-8, cp1252, shift_jis, utf-16, utf-32, ascii, koi8-r (and, for the round trip and the file bytes, 14 more: not ASCII-compatible, stateful or 7-bit: utf-16-le/be, utf-32-le/be, utf-7, hz, iso2022_jp, cp037, cp500, euc_jp, gb2312, big5, cp437, mac_roman) x texts from each codec\'s repertoire (and '
         'unencodable ones) x fault points: truncation of a valid file at each byte offset, a data byte >= 0x80 in the n-th '
         'message, a non-integer time in the n-th message on save, undecodable text; after EVERY call - successful or raised - the '
         'process-wide charset and a probe encoding are examined. Distinct by (charset, text, fault); all non-trivial')
@@ -125,9 +125,24 @@ def _chunk(cs):
     return [impl_case(c) for c in cs]
 
 
+# charsets that are not ASCII-compatible, are stateful, or have 7-bit encoded forms: the text codec must be used for
+# every text, whatever its bytes look like (round trip and file bytes only; the fault scenarios use CHARSETS)
+EXTRA_CHARSETS = ['utf-16-le', 'utf-16-be', 'utf-32-le', 'utf-32-be', 'utf-7', 'hz', 'iso2022_jp', 'cp037', 'cp500',
+                  'euc_jp', 'gb2312', 'big5', 'cp437', 'mac_roman']
+EXTRA_TEXTS = ['Piano', 'あい', 'A+B~C', '漢字 kanji', 'x', 'Track 1 {~}', 'é', 'Ж']
+
+
 def gen(ck):
     rng = ck.rng
     cases = []
+    for cs in EXTRA_CHARSETS:
+        for t in EXTRA_TEXTS + TEXTS[:12]:
+            try:
+                t.encode(cs)
+            except (UnicodeError, LookupError):
+                continue
+            cases.append((cs, (t,), None))
+            cases.append((cs, (t, 'Piano', t), None))
     for cs in CHARSETS:
         for t in TEXTS:
             cases.append((cs, (t,), None))
